@@ -891,7 +891,7 @@ CLI_SCENES = [
 
 def scene_class(r):
     if r["kind"] == "toy_mcmc":
-        return "toy:" + "+".join(r["operators"]) + (":T" if r.get("transformed_op") else "") + (":wall" if r.get("faulty") else "")
+        return "toy:" + "+".join(r["operators"]) + (":T" if r.get("transformed_op") else "") + (":M" if r.get("matrix_op") else "") + (":wall" if r.get("faulty") else "")
     return "cli:%s:%s" % (r["sub"], " ".join(a for a in r["args"] if not a.startswith("/")))
 
 
